@@ -55,4 +55,40 @@ def optimal (s : List Entry) (thr : Int) : List (List (Option Nat)) :=
   let qs := queries s
   (allAssign qs (tracks s)).filter (fun a => objective s thr qs a == b)
 
+
+/-- Dynamic programme over subsets of tracks: the maximum objective over all one-to-one partial
+assignments and the number of assignments attaining it. Used by the driver on large instances
+(the enumeration `best` is exponential in the number of detections); on small instances the driver
+cross-checks `bestDP = best` on every call. -/
+def bestDP (s : List Entry) (thr : Int) : Int × Nat :=
+  let qs := queries s
+  let ts := tracks s
+  let idx (t : Nat) : Nat := (ts.findIdx? (· == t)).getD 0
+  let size := 2 ^ ts.length
+  let init : Array (Option (Int × Nat)) := (Array.replicate size none).set! 0 (some (0, 1))
+  let put (a : Array (Option (Int × Nat))) (m : Nat) (v : Int) (c : Nat) : Array (Option (Int × Nat)) :=
+    match a.getD m none with
+    | none => a.set! m (some (v, c))
+    | some (v0, c0) => if v > v0 then a.set! m (some (v, c)) else if v == v0 then a.set! m (some (v0, c0 + c)) else a
+  let final := qs.foldl (fun (cur : Array (Option (Int × Nat))) q =>
+    let cands := (tracks (s.filter (fun e => e.q == q))).map (fun t => (idx t, weightOf s q t))
+    (List.range size).foldl (fun (nxt : Array (Option (Int × Nat))) m =>
+      match cur.getD m none with
+      | none => nxt
+      | some (v, c) =>
+        let nxt := put nxt m (v + thr) c
+        cands.foldl (fun nxt (j, w) => if (m >>> j) % 2 == 1 then nxt else put nxt (m ||| (1 <<< j)) (v + w) c) nxt)
+      (Array.replicate size none)) init
+  final.foldl (fun (acc : Int × Nat) o => match o with
+    | none => acc
+    | some (v, c) => if acc.2 == 0 || v > acc.1 then (v, c) else if v == acc.1 then (acc.1, acc.2 + c) else acc) (0, 0)
+
+/-- the optimum used by the executable model: the exhaustive enumeration `best` on small instances,
+the dynamic programme beyond (where the enumeration is infeasible) -/
+def small (s : List Entry) : Bool := decide ((queries s).length ≤ 5) && decide ((tracks s).length ≤ 5)
+
+def bestOf (s : List Entry) (thr : Int) : Int := if small s then best s thr else (bestDP s thr).1
+
+/-- number of optimal assignments -/
+def optCount (s : List Entry) (thr : Int) : Nat := if small s then (optimal s thr).length else (bestDP s thr).2
 end SimVerif.AssignX
